@@ -1,6 +1,6 @@
 (* Wire-level entry point of the C05 model (panic freedom).
-   case = entry <LP bytes> extra..     For the modelled entry (26 = IntegrityMetadata) the observation is
-   0 alg-len digest-len bytes-len | 1 (rejected); for every other entry point the model makes no
+   case = entry <LP bytes> extra..     For the modelled entries the observation is: 26 = IntegrityMetadata: 0 alg-len digest-len bytes-len | 1 (rejected);
+   24 = MethodDigest::unpack: 0 <re-packed bytes> | 1; for every other entry point the model makes no
    prediction (-5555: the runner skips the comparison) and the catch_unwind oracle decides; a panic shows as -777. *)
 From Coq Require Import List ZArith NArith Bool.
 From IdV Require Import Lib.Wire Lib.Outcome Panic.Sites.
@@ -16,6 +16,14 @@ Definition c05_run (input : list Z) : list Z :=
       | Some (bytes, _) => match integrity_parse (map Z.to_N bytes) with
                            | Some v => [0; olen (im_alg v); olen (im_digest v); olen (im_digest_bytes v)]
                            | None => [1] end
+      | None => ERR_DECODE end
+    else if e =? 24 then
+      (* MethodDigest::unpack then pack: 0 <packed bytes> | 1 *)
+      match take_lp l with
+      | Some (bytes, _) => match md_unpack true (map Z.to_N bytes) with
+                           | Ok d => 0 :: map Z.of_N (md_pack d)
+                           | Err _ => [1]
+                           | Panic => [-777] end
       | None => ERR_DECODE end
     else [-5555]
   | [] => ERR_DECODE end.
